@@ -1,456 +1,275 @@
 """C05 -- all details and every traceback reach the result; none is dropped or overwritten."""
 
-import ast
-
-from ..absint import NONE, NOTNONE, TOP, DefaultDomain, Interp, State, val
-from ..astutil import FUNC_TYPES, attr_chain, dotted, norm, walk_shallow
-from ..cfg import live_nodes, node_calls
-from ..loader import AnalysisError
-from .common import literal_elements, RUNTEST, TESTCASE, TWRUNTEST, cfg_of, has_kw, kw_value, module_function, nodes_calling, own_method, str_const
+from ..objects import is_inst
+from . import casemodel as cm
+from .common import RUNTEST, TESTCASE, TWRUNTEST, check_copy_content_snapshot
 
 EXPLANATION = (
-    "R-DETAILS-PASSED: every outcome call made on behalf of a run by testcase.py, runtest.py and "
-    "twistedsupport/_runtest.py passes details=<case>.getDetails() (the decorator-skip path, which runs "
-    "nothing, passes reason=). R-UNIQUE-WRITE: every write of a detail made by testtools' own code into the "
-    "details dict of a running TestCase (addDetail call sites) or into gather_details' target is either the "
-    "reserved name 'reason', or is dominated by a loop that exits only when the name is not in that same "
-    "dict; everything else must go through addDetailUniqueName. R-TRACEBACK-PER-EXC: recording an "
-    "exception is dominated by onException; MultipleExceptions recurses once per constituent; "
-    "onException reports a traceback unless the type is one of the three signal classes and runs the user "
-    "handler loop on all paths; expectFailure reports the traceback before raising. "
-    "R-HANDLERS-BEFORE-OUTCOME: onException is called only by the recorder, and the dispatch runs after "
-    "_run_core returned. R-EAGER-SNAPSHOT: _copy_content evaluates iter_bytes() when details are gathered "
-    "and keeps the content type. R-MISMATCH-DETAILS: every detail of a mismatch is added under a unique name."
+    "TestCase.run is followed as written (ttsa.rules.casemodel); what the rules read is the `details` argument of the one "
+    "outcome call the result receives -- an exact dict of names to content objects. The user's stages attach details, use a "
+    "fixture that carries details, make failing assertThat / expectThat calls whose mismatch carries details, skip with and "
+    "without a reason, expect a failure, register addOnException handlers and raise exceptions of every kind, alone and as "
+    "MultipleExceptions. R-DETAILS-PASSED: for every kind of outcome the details contain every detail attached by any stage, "
+    "with the content object that was attached; a skip carries its reason (also the default one), an expected failure its "
+    "reason. R-TRACEBACK-PER-EXC: the details contain exactly one TracebackContent per failure / error raised (each "
+    "constituent of a MultipleExceptions, the assertion behind an expected failure), built from that exception's exc_info, "
+    "and none for skips / expected failures / unexpected successes. R-UNIQUE-WRITE: user details named like generated ones "
+    "('traceback', 'traceback-1', 'Failed expectation', a fixture's and a mismatch's names) are all still there, unchanged, next "
+    "to the generated ones; the Twisted runner attaches the debug information of every unhandled Deferred through "
+    "addDetailUniqueName (model shared with C14). R-MISMATCH-DETAILS: every detail of the mismatch of a failing assertThat / "
+    "expectThat is in the outcome's details. R-HANDLERS-BEFORE-OUTCOME: every addOnException handler is called exactly once "
+    "per exception raised by user code (per constituent), with its exc_info, before the outcome call. R-EAGER-SNAPSHOT: the "
+    "details of a fixture are gathered -- also when the fixture's setUp fails -- as copies whose bytes were read when they "
+    "were gathered (_copy_content run against a source that goes on changing)."
 )
 
-OUTCOMES = {"addSuccess", "addError", "addFailure", "addSkip", "addExpectedFailure", "addUnexpectedSuccess"}
+KIND_STAGES = ("setUp", "test", "tearDown", "cleanup")
 
 
-class _UniqueDomain(DefaultDomain):
-    """Value flow of "this name is known not to be a key of that details dict".  A membership test
-    that comes out `not in` turns the tested local into ("fresh", <dict>); any other assignment makes
-    it an ordinary value again.  Details dicts are values too (("ddict", owner)), so the fact survives
-    helper functions that take the dict as a parameter and return the unused name."""
+def C(n):
+    """A content object attached by the user."""
+    return ("new", "Content", (("sym", "content-type of " + n), ("sym", "byte source of " + n)))
 
-    def __init__(self, classes):
-        self.classes = classes
-        self.writes = {}
 
-    def call(self, interp, call, st, fr):
-        d = dotted(call.func) or ""
-        f = call.func
-        if isinstance(f, ast.Attribute) and f.attr == "getDetails":
-            return [val(("ddict", dotted(f.value) or "?"), st)]
-        if d in ("itertools.count", "count"):
-            return [val(("infinite",), st)]
-        if isinstance(f, ast.Attribute) and f.attr == "setdefault" and len(call.args) == 2:
-            return interp.eval(call.args[1], st, fr)
-        if isinstance(f, ast.Attribute) and f.attr in ("addDetail", "addDetailUniqueName") and call.args:
-            out = []
-            for r in interp.eval(call.args[0], st, fr):
-                if r.kind == "exc":
-                    out.append(r)
+def _details(r):
+    """-> (outcome method, details dict of that call as a list of (name, content)), or (None, None) when there is not exactly one outcome."""
+    calls = [(n.split(".", 1)[1], pos, kw) for n, pos, kw in cm.events(r, ("result.",)) if n.split(".", 1)[1] in cm.OUTCOME_METHODS]
+    if len(calls) != 1:
+        return None, None
+    name, pos, kw = calls[0]
+    d = kw.get("details")
+    if not (isinstance(d, tuple) and d[:1] == ("kwdict",)):
+        return name, None
+    return name, list(d[1])
+
+
+def _tracebacks(details):
+    """The exceptions that have a traceback detail: [(name, exception)]."""
+    out = []
+    for name, c in details:
+        if isinstance(c, tuple) and c[:2] == ("new", "TracebackContent") and c[2] and isinstance(c[2][0], tuple) and c[2][0][:1] == ("tuple",) and len(c[2][0]) == 4:
+            out.append((name, c[2][0][2]))
+    return out
+
+
+def _script(raising=None, extra=None):
+    script = {"setUp": [("call", "addCleanup", [cm.user("cleanup")], [])], "test": [], "tearDown": [], "cleanup": []}
+    for stage, actions in (extra or {}).items():
+        script[stage] = script.get(stage, []) + list(actions)
+    for stage, kind in (raising or {}).items():
+        script[stage] = script[stage] + [("raise", cm.raised(kind, stage) if isinstance(kind, str) else kind)]
+    return script
+
+
+def check_details_passed(ctx, case):
+    Q = f"{TESTCASE}:TestCase.run"
+    attach = {s: [("call", "addDetail", [("const", "note from " + s), C(s)], [])] for s in KIND_STAGES}
+    want = [("note from " + s, C(s)) for s in KIND_STAGES]
+    for kind in (None, "fail", "error", "skip", "xfail", "uxsuccess"):
+        for stage in (("test",) if ctx.tier != "thorough" and kind not in (None, "fail") else ("test", "cleanup", "tearDown")) if kind else ("-",):
+            d, runs = cm.run_case(ctx, _script({stage: kind} if kind else {}, extra=attach))
+            problems = set()
+            for r in runs:
+                oc, det = _details(r)
+                if det is None:
+                    problems.add(f"the outcome ({oc}) carries no details dict" if oc else "there is not exactly one outcome")
                     continue
-                if f.attr == "addDetail":
-                    owner = ("ddict", dotted(f.value) or "?")
-                    fresh = r.value == ("fresh", owner) or r.value == ("const", "reason")
-                    self.writes.setdefault(id(call), []).append((fresh, r.value))
-                out.append(val(NONE, r.state))
-            return out
-        hit = interp.auto_inline(call, st, fr, self.classes)
-        if hit is not None:
-            return hit
-        out = []
-        for r in interp.eval_list([a for a in call.args if not isinstance(a, ast.Starred)] + [k.value for k in call.keywords], st, fr):
-            out.append(r if r.kind == "exc" else val(TOP, r.state))
-        return out
-
-    def iter_kind(self, value):
-        return "nonempty" if value == ("infinite",) else super().iter_kind(value)
-
-    def for_step(self, interp, stmt, itervalue, st, fr, first):
-        if itervalue == ("infinite",):
-            return True, False
-        return None
-
-    def refine(self, interp, test, st, fr, truth):
-        if isinstance(test, ast.Compare) and len(test.ops) == 1 and isinstance(test.ops[0], (ast.In, ast.NotIn)) and isinstance(test.left, ast.Name):
-            absent = truth == isinstance(test.ops[0], ast.NotIn)
-            for r in interp.eval(test.comparators[0], st, fr):
-                if r.kind == "val" and isinstance(r.value, tuple) and r.value[:1] == ("ddict",):
-                    key = fr.local(test.left.id)
-                    return st.set(key, ("fresh", r.value)) if absent else st
-        return st
-
-    def store_subscript(self, target, value, st, fr, interp):
-        for r in interp.eval_list([target.value, target.slice], st, fr):
-            if r.kind == "val" and isinstance(r.value[0], tuple) and r.value[0][:1] == ("ddict",):
-                self.writes.setdefault(id(target), []).append((r.value[1] == ("fresh", r.value[0]), r.value[1]))
-        return st
-
-    def constant(self, node):
-        return ("const", node.value)
-
-    def truth(self, value):
-        if isinstance(value, tuple) and len(value) == 2 and value[0] == "const" and not isinstance(value[1], str):
-            return "T" if value[1] else "F"
-        if isinstance(value, tuple) and len(value) == 2 and value[0] == "const":
-            return "T" if value[1] else "F"
-        return super().truth(value)
-
-    def is_none(self, value):
-        if isinstance(value, tuple) and len(value) == 2 and value[0] == "const":
-            return "T" if value[1] is None else "F"
-        return super().is_none(value)
+                missing = [n for n, c in want if (n, c) not in det and not (kind and stage == "setUp")]
+                if stage == "setUp" and kind:
+                    missing = [n for n, c in want if n in ("note from setUp", "note from cleanup") and (n, c) not in det]
+                if missing:
+                    problems.add(f"{oc} does not carry the details {missing} (the details passed are named {[n for n, _ in det]})")
+            label = f"{cm.KINDS[kind][0]} raised by {stage}" if kind else "nothing raised"
+            ctx.check("R-DETAILS-PASSED", f"[{label}] the outcome carries every detail the stages attached, as attached", case.node, bool(runs) and not problems,
+                      "; ".join(sorted(problems)) or "no path of run() was followed to its end", examined=len(runs), construct=f"{Q}::details {label}")
+    # reasons
+    why = ("const", "not today")
+    for label, script, outcome, reason in (
+            ("skipTest(reason)", _script(extra={"test": [("call", "skipTest", [why], [])]}), "addSkip", ("new", "text_content", (why,), ())),
+            ("SkipTest(reason) raised", _script({"test": cm.raised("skip", "test", args=(why,))}), "addSkip", ("new", "text_content", (why,), ())),
+            ("SkipTest() raised without a reason", _script({"test": cm.raised("skip", "test", args=())}), "addSkip", None),
+            ("expectFailure(reason, predicate) whose predicate fails", _script(extra={"test": [("call", "expectFailure", [why, cm.user("predicate")], [])], "predicate": [("raise", cm.raised("fail", "predicate"))]}),
+             "addExpectedFailure", ("new", "text_content", (why,), ()))):
+        d, runs = cm.run_case(ctx, script)
+        problems = set()
+        for r in runs:
+            oc, det = _details(r)
+            got = dict(det or []).get("reason")
+            if oc != outcome:
+                problems.add(f"the outcome is {oc}; expected {outcome}")
+            elif got is None or (reason is not None and got != reason) or (reason is None and not (isinstance(got, tuple) and got[:2] == ("new", "text_content"))):
+                problems.add(f"the 'reason' detail of the {outcome} call is {got!r}; expected " + (repr(reason) if reason is not None else "a text content with the default reason"))
+        ctx.check("R-DETAILS-PASSED", f"[{label}] the outcome carries the reason as the detail 'reason'", case.node, bool(runs) and not problems, "; ".join(sorted(problems)) or "no path",
+                  examined=len(runs), construct=f"{Q}::reason {label}")
+    ctx.floor("R-DETAILS-PASSED", 8, "outcome scenarios")
 
 
-class _MismatchDetailsDomain(DefaultDomain):
-    """_matchHelper with a symbolic verdict whose get_details() holds exactly one (name, content) pair."""
-
-    def __init__(self, classes):
-        self.classes = classes
-
-    def truth(self, value):
-        if value == ("mismatch",):
-            return "T"
-        return super().truth(value)
-
-    def is_none(self, value):
-        return "F" if value == ("mismatch",) else super().is_none(value)
-
-    def iter_kind(self, value):
-        return "nonempty" if value == ("detail-items",) else super().iter_kind(value)
-
-    def for_step(self, interp, stmt, itervalue, st, fr, first):
-        if itervalue == ("detail-items",):
-            return (True, False) if first else (False, True)
-        return None
-
-    def element(self, itervalue, st, node):
-        if itervalue == ("detail-items",):
-            return ("tuple", ("detail-name",), ("detail-content",))
-        return TOP
-
-    def call(self, interp, call, st, fr):
-        f = call.func
-        d = dotted(f) or ""
-        if isinstance(f, ast.Attribute) and f.attr == "match":
-            return [val(NONE, st.set("ev.verdict", "none")), val(("mismatch",), st.set("ev.verdict", "mismatch"))]
-        if isinstance(f, ast.Attribute) and f.attr == "items" and isinstance(f.value, ast.Call) and isinstance(f.value.func, ast.Attribute) and f.value.func.attr == "get_details":
-            return [val(("detail-items",), st)]
-        if isinstance(f, ast.Attribute) and f.attr == "get_details":
-            return [val(("detail-dict",), st)]
-        if isinstance(f, ast.Attribute) and f.attr == "items":
-            out = []
-            for r in interp.eval(f.value, st, fr):
-                out.append(r if r.kind == "exc" else val(("detail-items",) if r.value == ("detail-dict",) else TOP, r.state))
-            return out
-        if d.endswith("addDetailUniqueName") and len(call.args) == 2:
-            out = []
-            for r in interp.eval_list(list(call.args), st, fr):
-                out.append(r if r.kind == "exc" else val(NONE, r.state.set("ev.added", r.state.get("ev.added", ()) + ((r.value[0], r.value[1]),))))
-            return out
-        hit = interp.auto_inline(call, st, fr, self.classes)
-        if hit is not None:
-            return hit
-        out = []
-        for r in interp.eval_list([a for a in call.args if not isinstance(a, ast.Starred)] + [k.value for k in call.keywords], st, fr):
-            out.append(r if r.kind == "exc" else val(NOTNONE, r.state))
-        return out
+def check_tracebacks(ctx, case):
+    Q = f"{TESTCASE}:TestCase.run"
+    t1, t2, t3 = cm.raised("fail", "first"), cm.raised("error", "second"), cm.raised("fail", "third")
+    scenarios = [
+        ("the test fails", _script({"test": t1}), [t1]),
+        ("the test raises an error", _script({"test": t2}), [t2]),
+        ("setUp raises an error", _script({"setUp": t2}), [t2]),
+        ("test, tearDown and a cleanup raise", _script({"test": t1, "tearDown": t2, "cleanup": t3}), [t1, t2, t3]),
+        ("the test raises a MultipleExceptions of two", _script({"test": cm.multi("test", t1, t2)}), [t1, t2]),
+        ("a cleanup raises a MultipleExceptions of two after the test failed", _script({"test": t3, "cleanup": cm.multi("cleanup", t1, t2)}), [t3, t1, t2]),
+        ("the test skips", _script({"test": "skip"}), []),
+        ("the test raises _ExpectedFailure / _UnexpectedSuccess in tearDown", _script({"test": "xfail", "tearDown": "uxsuccess"}), []),
+        ("the test fails, tearDown skips", _script({"test": t1, "tearDown": "skip"}), [t1]),
+        ("a KeyboardInterrupt in the test", _script({"test": "interrupt"}), [cm.raised("interrupt", "test")]),
+    ]
+    pred = cm.raised("fail", "predicate")
+    scenarios.append(("expectFailure whose predicate fails", _script(extra={"test": [("call", "expectFailure", [("const", "known"), cm.user("predicate")], [])], "predicate": [("raise", pred)]}), [pred]))
+    if ctx.tier != "thorough":
+        scenarios = [s for i, s in enumerate(scenarios) if i not in (1, 5, 8)]
+    for label, script, raised in scenarios:
+        d, runs = cm.run_case(ctx, script)
+        problems = set()
+        for r in runs:
+            oc, det = _details(r)
+            if det is None:
+                problems.add("there is not exactly one outcome with a details dict")
+                continue
+            got = _tracebacks(det)
+            excs = [e for _, e in got]
+            if sorted(map(repr, excs)) != sorted(map(repr, raised)):
+                problems.add(f"{oc} carries traceback details for {excs} (named {[n for n, _ in got]}); expected exactly one for each of {raised}")
+            if len({n for n, _ in det}) != len(det):
+                problems.add("two details share one name")
+        ctx.check("R-TRACEBACK-PER-EXC", f"[{label}] one traceback detail per failure / error raised, none for outcome signals", case.node, bool(runs) and not problems,
+                  "; ".join(sorted(problems)) or "no path", examined=len(runs), construct=f"{Q}::tracebacks {label}")
+    ctx.floor("R-TRACEBACK-PER-EXC", 6, "raising scenarios")
 
 
-def unique_write_verdicts(ctx, func, receiver, argvals):
-    """{id(write node): [(fresh?, name value)]} over an abstract run of func."""
-    dom = _UniqueDomain(ctx.classes)
-    it = Interp(dom, max_depth=4)
-    it.analyze(func, argvals, State(), receiver=receiver, name=getattr(func, "name", "?"))
-    ctx.stats["states"] += it.steps
-    for fn in it.functions:
-        ctx.analysed(fn)
-    return dom.writes
-
-
-def guard_for_write(func, write_stmt, name_expr, dict_exprs):
-    """Is the write dominated by a loop that exits only when name not in dict?"""
-    # aliases: X = N statements between the loop and the write
-    block = getattr(write_stmt, "_parent", None)
-    body = None
-    for fld in ("body", "orelse", "finalbody"):
-        b = getattr(block, fld, None)
-        if isinstance(b, list) and write_stmt in b:
-            body = b
-    if body is None:
-        return False, "write is not a statement of a block"
-    idx = body.index(write_stmt)
-    names = {dotted(name_expr)}
-    i = idx - 1
-    while i >= 0:
-        s = body[i]
-        if isinstance(s, ast.Assign) and isinstance(s.targets[0], ast.Name) and s.targets[0].id in names and isinstance(s.value, ast.Name):
-            names.add(s.value.id)
-            i -= 1
+def check_collisions(ctx, case):
+    Q = f"{TESTCASE}:TestCase.run"
+    t1, t2 = cm.raised("fail", "first"), cm.raised("error", "second")
+    M, MM, F, FC = ("wobj", "matcher"), ("wobj", "mismatch"), ("wobj", "fixture"), ("wobj", "fcontent")
+    taken = ["traceback", "traceback-1", "traceback-2", "Failed expectation", "log", "diff", "reason-like"]
+    attach = [("call", "addDetail", [("const", n), C(n)], []) for n in taken]
+    answers = {"matcher.match": [("val", MM)], "mismatch.get_details": [("val", ("kwdict", (("diff", C("the mismatch's diff")), ("traceback", C("the mismatch's traceback")))))],
+               "mismatch.describe": [("val", ("const", "it differs"))], "fixture.getDetails": [("val", ("kwdict", (("log", FC), ("diff", FC))))],
+               "fcontent.iter_bytes": [("val", ("tuple", ("const", b"fixture bytes")))]}
+    kw = dict(answers=answers, lacks={("fixture", "_details")}, accepting_extra=("fcontent",), extra_attrs={"fcontent.content_type": ("sym", "fixture-type")})
+    scenarios = [
+        ("user details named like tracebacks; two exceptions", _script({"test": t1, "tearDown": t2}, extra={"setUp": attach}), 2, 0, 0),
+        ("user details; a failing expectThat with mismatch details", _script(extra={"setUp": attach, "test": [("call", "expectThat", [("sym", "matchee"), M], [])]}), 1, 2, 0),
+        ("user details; a failing assertThat with mismatch details", _script(extra={"setUp": attach, "test": [("call", "assertThat", [("sym", "matchee"), M], [])]}), 1, 2, 0),
+        ("user details; a fixture with details of the same names; the test fails", _script({"test": t1}, extra={"setUp": attach, "test": [("call", "useFixture", [F], [])]}), 1, 0, 2),
+        ("two failing expectThat in one test", _script(extra={"setUp": attach, "test": [("call", "expectThat", [("sym", "matchee"), M], []), ("call", "expectThat", [("sym", "matchee"), M], [])]}), 1, 4, 0),
+    ]
+    for label, script, n_tb, n_mismatch, n_fixture in scenarios:
+        d, runs = cm.run_case(ctx, script, **kw)
+        problems, mism = set(), set()
+        for r in runs:
+            oc, det = _details(r)
+            if det is None:
+                problems.add("there is not exactly one outcome with a details dict")
+                continue
+            for n in taken:
+                if (n, C(n)) not in det:
+                    problems.add(f"the user's detail {n!r} is {'replaced by ' + repr(dict(det)[n])[:80] if n in dict(det) else 'gone'} in the details of {oc}")
+            if len({n for n, _ in det}) != len(det):
+                problems.add("two details share one name")
+            if len(_tracebacks(det)) != n_tb:
+                problems.add(f"{len(_tracebacks(det))} traceback details next to the user's (expected {n_tb}): names {[n for n, _ in det]}")
+            got_m = [n for n, c in det if c in (C("the mismatch's diff"), C("the mismatch's traceback"))]
+            if len(got_m) != n_mismatch:
+                mism.add(f"{len(got_m)} of the {n_mismatch} details of the mismatch(es) are in the details of {oc} (names {[n for n, _ in det]})")
+            got_f = [n for n, c in det if is_inst(c)]
+            if len(got_f) != n_fixture:
+                problems.add(f"{len(got_f)} of the fixture's {n_fixture} details are in the details of {oc} (names {[n for n, _ in det]})")
+        ctx.check("R-UNIQUE-WRITE", f"[{label}] generated names never clobber (or get clobbered by) existing details", case.node, bool(runs) and not problems,
+                  "; ".join(sorted(problems))[:900] or "no path", examined=len(runs), construct=f"{Q}::collisions {label}")
+        if n_mismatch:
+            ctx.check("R-MISMATCH-DETAILS", f"[{label}] every detail of the mismatch is in the outcome's details", case.node, bool(runs) and not mism, "; ".join(sorted(mism))[:900] or "no path",
+                      examined=len(runs), construct=f"{Q}::mismatch-details {label}")
+    ctx.floor("R-UNIQUE-WRITE", 4, "collision scenarios")
+    # the Twisted runner: the debug information of every unhandled Deferred is attached under a name of its own
+    from . import c14
+    core, res = c14.run_core_results(ctx, every_unhandled_has_debug_info=True)
+    problems = set()
+    n = 0
+    for r in res:
+        if r.state.get("src.unhandled") != "yes":
             continue
-        if isinstance(s, ast.While):
-            t = s.test
-            # while N in D:
-            if isinstance(t, ast.Compare) and len(t.ops) == 1 and isinstance(t.ops[0], ast.In) and dotted(t.left) in names and norm(t.comparators[0]) in dict_exprs:
-                if not any(isinstance(x, ast.Break) for x in walk_shallow(s)):
-                    return True, ""
-            # while True: ... if N not in D: break
-            if isinstance(t, ast.Constant) and t.value is True:
-                brk = [x for x in walk_shallow(s) if isinstance(x, ast.Break)]
-                ok = bool(brk)
-                for b in brk:
-                    p = getattr(b, "_parent", None)
-                    if not (isinstance(p, ast.If) and isinstance(p.test, ast.Compare) and len(p.test.ops) == 1 and isinstance(p.test.ops[0], ast.NotIn)
-                            and dotted(p.test.left) in names and norm(p.test.comparators[0]) in dict_exprs):
-                        ok = False
-                if ok:
-                    return True, ""
-            return False, "the preceding loop does not establish `name not in details`"
-        if isinstance(s, (ast.Expr, ast.Assign)) and not any(isinstance(c, ast.Call) and (dotted(c.func) or "").endswith("addDetail") for c in walk_shallow(s)):
-            # harmless statement in between? only if it does not rebind the name or write the dict
-            if isinstance(s, ast.Assign) and any(dotted(t) in names for t in s.targets):
-                return False, "the name is rebound after the uniqueness loop"
-            i -= 1
-            continue
-        break
-    return False, "no uniqueness loop dominates the write"
+        n += 1
+        log = r.state.get("ev.calls", ())
+        unique = [e for e in log if e[0] == "case.addDetailUniqueName"]
+        plain = [e for e in log if e[0] == "case.addDetail" and e[1] and isinstance(e[1][0], tuple) and e[1][0][:1] == ("const",) and "unhandled" in str(e[1][0][1])]
+        if plain or len(unique) != 2:
+            problems.add(f"with two unhandled Deferreds that have debug information, addDetailUniqueName is called {len(unique)} time(s) and addDetail {len(plain)} time(s) for them: "
+                         "with a fixed name the second one overwrites the first")
+    ctx.check("R-UNIQUE-WRITE", "AsynchronousDeferredRunTest._run_core attaches the debug information of every unhandled Deferred through addDetailUniqueName", core, n >= 1 and not problems,
+              "; ".join(sorted(problems)) or "no path with unhandled Deferreds", examined=n, construct=f"{TWRUNTEST}:AsynchronousDeferredRunTest._run_core::unhandled-debug-detail")
+
+
+def check_handlers(ctx, case):
+    Q = f"{TESTCASE}:TestCase.addOnException"
+    t1, t2, t3 = cm.raised("fail", "first"), cm.raised("error", "second"), cm.raised("skip", "third")
+    reg = [("call", "addOnException", [cm.user("handler_a")], []), ("call", "addOnException", [cm.user("handler_b")], [])]
+    for label, raising, want in (("one failure", {"test": t1}, [t1]), ("test, tearDown and cleanup raise (one a skip)", {"test": t1, "tearDown": t3, "cleanup": t2}, [t1, t3, t2]),
+                                 ("a MultipleExceptions of two", {"test": cm.multi("test", t1, t2)}, [t1, t2]), ("nothing raises", {}, [])):
+        d, runs = cm.run_case(ctx, _script(raising, extra={"setUp": reg}))
+        problems = set()
+        for r in runs:
+            ev = cm.events(r, ("result.", "user."))
+            first_outcome = next((i for i, e in enumerate(ev) if e[0].startswith("result.add")), len(ev))
+            for h in ("handler_a", "handler_b"):
+                calls = [(i, e) for i, e in enumerate(ev) if e[0] == "user." + h]
+                got = [e[1][0][2] if e[1] and isinstance(e[1][0], tuple) and len(e[1][0]) == 4 else None for _, e in calls]
+                if got != want:
+                    problems.add(f"{h} is called for {got}; expected once, in order, for each of {want} (with the exception's exc_info)")
+                if any(i > first_outcome for i, _ in calls):
+                    problems.add(f"{h} is called after the outcome was reported")
+        ctx.check("R-HANDLERS-BEFORE-OUTCOME", f"[{label}] every addOnException handler is called once per exception, before the outcome", case.node, bool(runs) and not problems,
+                  "; ".join(sorted(problems)) or "no path", examined=len(runs), construct=f"{Q}::handlers {label}")
+
+
+def check_fixture_details(ctx, case):
+    Q = f"{TESTCASE}:TestCase.useFixture"
+    F, FC = ("wobj", "fixture"), ("wobj", "fcontent")
+    base = {"fixture.getDetails": [("val", ("kwdict", (("fixture log", FC),)))], "fcontent.iter_bytes": [("val", ("tuple", ("const", b"fixture bytes")))]}
+    kw = dict(accepting_extra=("fcontent",), extra_attrs={"fcontent.content_type": ("sym", "fixture-type"), "fixture._details": ("kwdict", (("fixture log", FC),))})
+    for label, answers, raising in (("the fixture is set up, the test passes", base, {}), ("the fixture is set up, the test fails", base, {"test": "fail"}),
+                                    ("the fixture's setUp fails", dict(base, **{"fixture.setUp": [("exc", ("exc", "RuntimeError", "fixture"))]}), {})):
+        d, runs = cm.run_case(ctx, _script(raising, extra={"test": [("call", "useFixture", [F], [])]}), answers=answers, **kw)
+        problems = set()
+        for r in runs:
+            oc, det = _details(r)
+            if det is None:
+                problems.add("there is not exactly one outcome with a details dict")
+                continue
+            got = [(n, c) for n, c in det if n.startswith("fixture log")]
+            if len(got) != 1:
+                problems.add(f"{oc} carries {len(got)} detail(s) of the fixture (names {[n for n, _ in det]}); expected its one detail")
+                continue
+            c = got[0][1]
+            ev = cm.events(r, ("result.", "fcontent."))
+            reads = [i for i, e in enumerate(ev) if e[0] == "fcontent.iter_bytes"]
+            outcome_at = next((i for i, e in enumerate(ev) if e[0].startswith("result.add")), len(ev))
+            if not is_inst(c) or c[2].name != "Content":
+                problems.add(f"the fixture's detail is passed on as {c!r}: not a copy made when the details were gathered")
+            elif len(reads) != 1 or reads[0] > outcome_at:
+                problems.add(f"the bytes of the fixture's detail are read {len(reads)} time(s), {'after' if reads and reads[0] > outcome_at else 'before'} the outcome: expected once, when gathered")
+            elif r.state.get(f"inst.{c[1]}.content_type") != ("sym", "fixture-type"):
+                problems.add("the copy of the fixture's detail does not keep its content type")
+        ctx.check("R-EAGER-SNAPSHOT", f"[{label}] the fixture's details reach the outcome as copies read at gathering time", case.node, bool(runs) and not problems,
+                  "; ".join(sorted(problems)) or "no path", examined=len(runs), construct=f"{Q}::fixture-details {label}")
+    check_copy_content_snapshot(ctx, "R-EAGER-SNAPSHOT")
 
 
 def run(ctx):
-    ctx.rule("R-DETAILS-PASSED", "every outcome reported for a run carries details=<case>.getDetails()")
-    ctx.rule("R-UNIQUE-WRITE", "internal detail writes are collision-guarded (reserved name, or dominated by a not-in loop)")
-    ctx.rule("R-TRACEBACK-PER-EXC", "one traceback detail per recorded exception; handlers run for every exception")
-    ctx.rule("R-HANDLERS-BEFORE-OUTCOME", "addOnException handlers run while stages run, before the outcome is dispatched")
+    ctx.rule("R-DETAILS-PASSED", "the one outcome of a run carries every detail attached by any stage, and the skip / expected-failure reason")
+    ctx.rule("R-UNIQUE-WRITE", "generated detail names (tracebacks, failed expectations, gathered and mismatch details) never clobber existing details")
+    ctx.rule("R-TRACEBACK-PER-EXC", "one traceback detail per failure / error raised by user code; none for outcome signals")
+    ctx.rule("R-HANDLERS-BEFORE-OUTCOME", "addOnException handlers are called once per exception, before the outcome is reported")
     ctx.rule("R-EAGER-SNAPSHOT", "gathered details are snapshots evaluated at gathering time")
     ctx.rule("R-MISMATCH-DETAILS", "every detail of a mismatch is attached under a non-clobbering name")
-    classes = ctx.classes
-
-    # ------------------------------------------------------------------ details passed
-    n = 0
-    for modname in (TESTCASE, RUNTEST, TWRUNTEST):
-        m = ctx.repo.module(modname)
-        for f in ast.walk(m.tree):
-            if not isinstance(f, FUNC_TYPES):
-                continue
-            cls = getattr(f, "_class", None)
-            if cls is not None and cls.name in ("PlaceHolder", "DecorateTestCaseResult", "ExpectedException"):
-                continue  # PlaceHolder replays stored details (C09)
-            for c in walk_shallow(f, include_self=False):
-                if not (isinstance(c, ast.Call) and isinstance(c.func, ast.Attribute) and c.func.attr in OUTCOMES):
-                    continue
-                recv = dotted(c.func.value)
-                if recv not in ("result", "self.result"):
-                    continue
-                n += 1
-                d = kw_value(c, "details")
-                ok = d is not None and isinstance(d, ast.Call) and dotted(d.func) in ("self.getDetails", "self.case.getDetails")
-                if not ok and c.func.attr == "addSkip" and has_kw(c, "reason") and f.name == "_run_core" and d is None:
-                    ctx.note("R-DETAILS-PASSED frozen exception: decorator-skip path in RunTest._run_core passes reason= (nothing ran, no details exist)")
-                    ok = True
-                ctx.check("R-DETAILS-PASSED", f"{modname.split('.')[-1]}:{f.name}: {norm(c.func)}", c, ok,
-                          f"`{norm(c)[:80]}` does not pass details=<case>.getDetails(): everything attached during the run is dropped",
-                          construct=f"{modname}:{f.name}::{c.func.attr}")
-    ctx.floor("R-DETAILS-PASSED", 8, "outcome call sites")
-    rs = own_method(ctx, TESTCASE, "TestCase", "_report_skip")
-    g = cfg_of(ctx, rs)
-    lv = live_nodes(g)
-    reason = nodes_calling(g, lambda c: dotted(c.func) == "self._add_reason", lv)
-    skip = nodes_calling(g, lambda c: isinstance(c.func, ast.Attribute) and c.func.attr == "addSkip", lv)
-    ok = bool(reason) and bool(skip) and all(g.dominated_by(s, set(reason)) for s in skip)
-    ctx.check("R-DETAILS-PASSED", "skip reason is attached before addSkip", rs, ok, "addSkip can be reported without the reason detail", construct=f"{TESTCASE}:TestCase._report_skip::reason-first")
-
-    # ------------------------------------------------------------------ unique write
-    fixture_like = set()
-    for c in classes.all:
-        if not c.external and classes.has_base_named(c, "Fixture"):
-            fixture_like.add(c.node)
-    sites = []
-    for modname, m in ctx.repo.modules.items():
-        for f in ast.walk(m.tree):
-            if not isinstance(f, FUNC_TYPES):
-                continue
-            if getattr(f, "_class", None) in fixture_like:
-                continue
-            for c in walk_shallow(f, include_self=False):
-                if isinstance(c, ast.Call) and isinstance(c.func, ast.Attribute) and c.func.attr == "addDetail" and len(c.args) >= 1:
-                    recv = dotted(c.func.value)
-                    if recv in ("self", "self.case", "case", "test"):
-                        sites.append((m, f, c))
-    for m, f, c in sites:
-        ctx.repo.module(m.name)
-        stmt = c
-        while not isinstance(stmt, ast.stmt):
-            stmt = stmt._parent
-        name = c.args[0]
-        recv = dotted(c.func.value)
-        if f.name == "addDetailUniqueName" or str_const(name) == "reason":
-            dict_exprs = {"existing_details", "self.getDetails()"}
-            if str_const(name) == "reason":
-                ctx.check("R-UNIQUE-WRITE", f"{f.name}: reserved name 'reason'", c, True)
-                continue
-        dict_exprs = {f"{recv}.getDetails()", "existing_details", "self.getDetails()"}
-        # locals bound to <recv>.getDetails()
-        for s in walk_shallow(f, include_self=False):
-            if isinstance(s, ast.Assign) and isinstance(s.value, ast.Call) and dotted(s.value.func) in (f"{recv}.getDetails", "self.getDetails") and isinstance(s.targets[0], ast.Name):
-                dict_exprs.add(s.targets[0].id)
-        exempt = (m.name == TWRUNTEST and f.name == "_run_core" and isinstance(getattr(stmt, "_parent", None), ast.For)
-                  and "capture_logs.getDetails().items()" in norm(stmt._parent.iter))
-        if exempt:
-            ctx.note("R-UNIQUE-WRITE frozen exception: log-fixture details copied at the top of AsynchronousDeferredRunTest._run_core "
-                     "(distinct keys of one dict, written into the dict TestCase.run has just reset)")
-            continue
-        if isinstance(name, ast.Constant):
-            ok, why = False, f"constant detail name {name.value!r} is written without a uniqueness guard"
-            in_loop = any(isinstance(p, (ast.For, ast.While)) for p in _ancestors(c, f))
-            if in_loop:
-                why += " inside a loop: a second iteration overwrites the first detail"
-        else:
-            cls_node = getattr(f, "_class", None)
-            recv_cls = classes.get(m.name, cls_node.name) if cls_node is not None else None
-            verdicts = unique_write_verdicts(ctx, f, recv_cls, {}).get(id(c), [])
-            bad = [v for fresh, v in verdicts if not fresh]
-            ok = bool(verdicts) and not bad
-            why = ("the write is never reached on the abstract run" if not verdicts else "" if not bad else
-                   f"on some path the name written is `{bad[0]!r}`, not a name just found absent from {recv}.getDetails() (no `not in` test on the same dict decides the write)")
-        ctx.check("R-UNIQUE-WRITE", f"{m.name.split('.')[-1]}:{f.name}: addDetail({norm(name)[:40]}, ...)", c, ok,
-                  f"{why}; use addDetailUniqueName", construct=f"{m.name}:{f.name}::addDetail({norm(name)[:50]})")
-    gd = module_function(ctx, TESTCASE, "gather_details")
-    writes = [s for s in ast.walk(gd) if isinstance(s, ast.Assign) and isinstance(s.targets[0], ast.Subscript) and dotted(s.targets[0].value) == gd.args.args[1].arg]
-    gd_verdicts = unique_write_verdicts(ctx, gd, None, {gd.args.args[0].arg: ("source-dict",), gd.args.args[1].arg: ("ddict", "target")})
-    for w in writes:
-        verdicts = gd_verdicts.get(id(w.targets[0]), [])
-        bad = [v for fresh, v in verdicts if not fresh]
-        ok = bool(verdicts) and not bad
-        why = "the write is never reached on the abstract run" if not verdicts else "" if not bad else f"on some path the key written is `{bad[0]!r}`, not a name just found absent from the target dict"
-        ctx.check("R-UNIQUE-WRITE", f"gather_details: {norm(w.targets[0])} = ...", w, ok, f"{why}: a fixture detail can overwrite an existing detail of the same name",
-                  construct=f"{TESTCASE}:gather_details::write")
-    ctx.check("R-UNIQUE-WRITE", "gather_details writes the target dict", gd, len(writes) == 1, f"{len(writes)} writes found", construct=f"{TESTCASE}:gather_details::writes")
-    ok = any(isinstance(l, ast.For) and norm(l.iter) == f"{gd.args.args[0].arg}.items()" and not any(isinstance(x, (ast.Break, ast.Continue, ast.Return)) for x in walk_shallow(l) if not isinstance(getattr(x, "_parent", None), ast.While))
-             for l in gd.body)
-    ctx.check("R-UNIQUE-WRITE", "gather_details copies every source detail", gd, ok, "gather_details does not iterate all of source_dict.items()", construct=f"{TESTCASE}:gather_details::all")
-    ctx.floor("R-UNIQUE-WRITE", 6)
-
-    # ------------------------------------------------------------------ traceback per exception
-    gue = own_method(ctx, RUNTEST, "RunTest", "_got_user_exception")
-    g = cfg_of(ctx, gue)
-    lv = live_nodes(g)
-    onex = nodes_calling(g, lambda c: dotted(c.func) == "self.case.onException", lv)
-    app = nodes_calling(g, lambda c: dotted(c.func) == "self._exceptions.append", lv)
-    ok = bool(onex) and bool(app) and all(g.dominated_by(a, set(onex)) for a in app)
-    ctx.check("R-TRACEBACK-PER-EXC", "recording an exception is dominated by onException", gue, ok,
-              "an exception can be recorded without onException (no traceback detail, handlers not called)", construct=f"{RUNTEST}:RunTest._got_user_exception::onException-first")
-    if onex:
-        c = [c for c in node_calls(g.nodes[onex[0]]) if dotted(c.func) == "self.case.onException"][0]
-        ok = c.args and dotted(c.args[0]) == gue.args.args[1].arg and dotted(kw_value(c, "tb_label")) == "tb_label"
-        ctx.check("R-TRACEBACK-PER-EXC", "onException receives the exc_info and the label", c, ok, "onException is not called with (exc_info, tb_label=tb_label)", construct=f"{RUNTEST}:RunTest._got_user_exception::args")
-    loops = [l for l in walk_shallow(gue, include_self=False) if isinstance(l, ast.For)]
-    ok = False
-    if len(loops) == 1 and isinstance(loops[0].target, ast.Name) and norm(loops[0].iter).endswith(".args"):
-        v = loops[0].target.id
-        rec = [c for c in walk_shallow(loops[0]) if isinstance(c, ast.Call) and dotted(c.func) == "self._got_user_exception" and c.args and dotted(c.args[0]) == v]
-        ok = len(rec) == 1 and not any(isinstance(x, (ast.Break, ast.Continue, ast.Return, ast.If)) for x in walk_shallow(loops[0]))
-    ctx.check("R-TRACEBACK-PER-EXC", "MultipleExceptions: one recursive report per constituent", gue, ok,
-              "the constituents of a MultipleExceptions are not each reported once", construct=f"{RUNTEST}:RunTest._got_user_exception::multi")
-    oe = own_method(ctx, TESTCASE, "TestCase", "onException")
-    g = cfg_of(ctx, oe)
-    lv = live_nodes(g)
-    tb = nodes_calling(g, lambda c: dotted(c.func) == "self._report_traceback", lv)
-    hl = [n.id for n in g.nodes if n.id in lv and n.kind == "iter" and "exception_handlers" in norm(n.ast.iter)]
-    esc = g.escape_path([g.entry], set(hl), targets=[g.exit_return]) if hl else [0]
-    ctx.check("R-TRACEBACK-PER-EXC", "user handler loop runs on every path through onException", oe, bool(hl) and esc is None,
-              "the addOnException handler loop is skipped on some path (e.g. nested under the traceback condition)", construct=f"{TESTCASE}:TestCase.onException::handlers-always")
-    hcall = [c for l in walk_shallow(oe, include_self=False) if isinstance(l, ast.For) and "exception_handlers" in norm(l.iter)
-             for c in walk_shallow(l) if isinstance(c, ast.Call) and dotted(c.func) == dotted(l.target)]
-    ok = len(hcall) == 1 and hcall[0].args and dotted(hcall[0].args[0]) == oe.args.args[1].arg
-    loop_ok = all(not any(isinstance(x, (ast.Break, ast.Return, ast.If, ast.Try)) for x in walk_shallow(l)) for l in walk_shallow(oe, include_self=False) if isinstance(l, ast.For))
-    ctx.check("R-TRACEBACK-PER-EXC", "each handler is called once with the exc_info", oe, ok and loop_ok, "handlers are not each called exactly once with exc_info", construct=f"{TESTCASE}:TestCase.onException::handler-call")
-    # the membership test on the exception type (either polarity) splits the paths: the traceback is
-    # reported on every path of the "not a signal class" side and on none of the other
-    ok = False
-    tests = [n for n in g.nodes if n.id in lv and n.kind == "test" and isinstance(n.ast.test, ast.Compare) and isinstance(n.ast.test.ops[0], (ast.In, ast.NotIn))
-             and literal_elements(n.ast.test.comparators[0], n.ast) is not None and norm(n.ast.test.left).startswith(oe.args.args[1].arg + "[0]")]
-    if len(tests) == 1 and tb:
-        t = tests[0]
-        loud = "true" if isinstance(t.ast.test.ops[0], ast.NotIn) else "false"
-        loud_succ = [b for b, k in g.succ[t.id] if k == loud]
-        quiet_succ = [b for b, k in g.succ[t.id] if k != loud and k in ("true", "false")]
-        always = g.escape_path(loud_succ, set(tb), targets=[g.exit_return]) is None
-        never = not (set(g.reach(quiet_succ)) & set(tb)) and not any(q in tb for q in quiet_succ)
-        shapes = all(dotted(c.args[0]) == oe.args.args[1].arg and dotted(kw_value(c, "tb_label")) == "tb_label"
-                     for i in tb for c in node_calls(g.nodes[i]) if dotted(c.func) == "self._report_traceback")
-        ok = always and never and shapes and g.dominated_by(tb[0], {t.id})
-    ctx.check("R-TRACEBACK-PER-EXC", "traceback reported unless the type is a signal class", oe, ok,
-              "onException does not call _report_traceback(exc_info, tb_label=tb_label) exactly when the type is not in the quiet list", construct=f"{TESTCASE}:TestCase.onException::traceback")
-    ef = own_method(ctx, TESTCASE, "TestCase", "expectFailure")
-    g = cfg_of(ctx, ef)
-    lv = live_nodes(g)
-    rep = nodes_calling(g, lambda c: dotted(c.func) == "self._report_traceback", lv)
-    rz = [n.id for n in g.nodes if n.id in lv and n.kind == "raise" and isinstance(n.ast, ast.Raise) and n.ast.exc is not None and "_ExpectedFailure" in norm(n.ast.exc)]
-    ok = bool(rep) and bool(rz) and all(g.dominated_by(r, set(rep)) for r in rz)
-    ctx.check("R-TRACEBACK-PER-EXC", "expectFailure reports the assertion's traceback before raising _ExpectedFailure", ef, ok,
-              "the assertion behind an expected failure is raised without its traceback detail", construct=f"{TESTCASE}:TestCase.expectFailure::traceback-first")
-    rt_ = own_method(ctx, TESTCASE, "TestCase", "_report_traceback")
-    ok = any(isinstance(c, ast.Call) and (dotted(c.func) or "").endswith("TracebackContent") and c.args and dotted(c.args[0]) == rt_.args.args[1].arg for c in ast.walk(rt_))
-    ctx.check("R-TRACEBACK-PER-EXC", "_report_traceback attaches a TracebackContent of the exc_info", rt_, ok, "no TracebackContent(exc_info, ...) is attached", construct=f"{TESTCASE}:TestCase._report_traceback::content")
-
-    # ------------------------------------------------------------------ handlers before outcome
-    callers = []
-    for modname, m in ctx.repo.modules.items():
-        for c in ast.walk(m.tree):
-            if isinstance(c, ast.Call) and isinstance(c.func, ast.Attribute) and c.func.attr == "onException":
-                callers.append(f"{modname}:{getattr(getattr(c, '_func', None), 'name', '?')}")
-    ctx.check("R-HANDLERS-BEFORE-OUTCOME", "onException is called only by the exception recorder", gue, callers == [f"{RUNTEST}:_got_user_exception"],
-              f"onException is called from {callers}", construct=f"{RUNTEST}::onException-callers")
-    rpr = own_method(ctx, RUNTEST, "RunTest", "_run_prepared_result")
-    # decided on the abstract run: no user stage and no onException call happens once an outcome was dispatched
-    from . import runmodel
-    rt_cls = classes.get(RUNTEST, "RunTest")
-    run_res, _ = runmodel.analyse_run(ctx, rt_cls)
-    late = [r for r in run_res if r.state.get("ev.onexc_after_outcome", 0) or r.state.get("ev.user_after_outcome", 0)]
-    n_out = sum(1 for r in run_res if r.state.get("ev.outcomes", 0) >= 1)
-    ctx.check("R-HANDLERS-BEFORE-OUTCOME", "the outcome is dispatched only after every stage (and its onException handlers) has run", rpr, not late and n_out >= 1,
-              "a stage or an addOnException handler can run after the outcome handler was called: what it attaches is missing from the reported details",
-              path=runmodel.fmt_log(late[0].state) if late else None, examined=len(run_res), construct=f"{RUNTEST}:RunTest._run_prepared_result::dispatch-after-core")
-
-    # ------------------------------------------------------------------ eager snapshot
-    from .common import check_copy_content_snapshot
-    check_copy_content_snapshot(ctx, "R-EAGER-SNAPSHOT")
-    gcalls = [c for c in ast.walk(gd) if isinstance(c, ast.Call) and dotted(c.func) == "_copy_content"]
-    ctx.check("R-EAGER-SNAPSHOT", "gather_details stores copies", gd, len(gcalls) == 1 and all(isinstance(w.value, ast.Call) and dotted(w.value.func) == "_copy_content" for w in writes),
-              "gather_details stores the live content object instead of a snapshot", construct=f"{TESTCASE}:gather_details::copies")
-
-    # ------------------------------------------------------------------ mismatch details
-    mh = own_method(ctx, TESTCASE, "TestCase", "_matchHelper")
-    tc_cls = classes.get(TESTCASE, "TestCase")
-    dom = _MismatchDetailsDomain(classes)
-    it = Interp(dom, max_depth=4)
-    res = it.analyze(mh, {}, State([("ev.added", ())]), receiver=tc_cls, name="_matchHelper")
-    ctx.stats["states"] += it.steps
-    for fn in it.functions:
-        ctx.analysed(fn)
-    outs = {(r.kind, r.state.get("ev.verdict", "?"), r.state.get("ev.added", ())) for r in res}
-    want_pair = ((("detail-name",), ("detail-content",)),)
-    problems = []
-    for kind, verdict, added in outs:
-        if verdict == "mismatch" and added != want_pair:
-            problems.append(f"with a mismatch carrying one detail, addDetailUniqueName is called {len(added)} time(s) with {added!r}")
-        if verdict == "none" and added:
-            problems.append("details are attached although the matcher matched")
-    ctx.check("R-MISMATCH-DETAILS", "_matchHelper adds every mismatch detail through addDetailUniqueName", mh, bool(outs) and not problems and any(v == "mismatch" for _, v, _ in outs),
-              "mismatch details are not each attached under a unique name: " + "; ".join(sorted(set(problems))), construct=f"{TESTCASE}:TestCase._matchHelper::details")
-    et = own_method(ctx, TESTCASE, "TestCase", "expectThat")
-    calls = [c for c in walk_shallow(et, include_self=False) if isinstance(c, ast.Call) and dotted(c.func) == "self.addDetailUniqueName"]
-    ctx.check("R-MISMATCH-DETAILS", "expectThat records the failed expectation under a unique name", et, len(calls) == 1 and str_const(calls[0].args[0]) is not None,
-              "expectThat no longer uses addDetailUniqueName for its 'Failed expectation' detail", construct=f"{TESTCASE}:TestCase.expectThat::unique")
-    ctx.assume("fixtures.Fixture.addDetail / getDetails are the fixture's own dict (outside R-UNIQUE-WRITE's scope)")
-
-
-def _ancestors(node, stop):
-    out = []
-    n = getattr(node, "_parent", None)
-    while n is not None and n is not stop:
-        out.append(n)
-        n = getattr(n, "_parent", None)
-    return out
+    case = cm.case_class(ctx)
+    check_details_passed(ctx, case)
+    check_tracebacks(ctx, case)
+    check_collisions(ctx, case)
+    check_handlers(ctx, case)
+    check_fixture_details(ctx, case)
